@@ -284,6 +284,10 @@ class SignAlign:
                             break
                 elif isinstance(val, ast.BinOp) and isinstance(val.op, ast.Sub) and isinstance(val.left, ast.Name) and "center" in val.left.id:
                     val, negate = val.right, True
+                p.env["__expr_" + t.id] = st.value          # the defining expression on THIS path (a result variable assigned in both arms of an if / else)
+                if isinstance(val, ast.Call) and call_name(val) in ("np.empty", "np.zeros") and val.args and isinstance(const(val.args[0]), int) and 1 <= const(val.args[0]) <= 4:
+                    p.env[t.id] = ("vec", [[] for _ in range(const(val.args[0]))])          # a fresh buffer filled component by component
+                    return [p]
                 v = self.vec(val, p)
                 if negate and isinstance(v, list):
                     v = [[_neg(t) for t in c] for c in v]
@@ -311,6 +315,12 @@ class SignAlign:
                     comps[k] = self.comp(st.value, p)
                     p.env[t.value.id] = ("vec", comps)
             return [p]
+        if isinstance(st, ast.AugAssign) and isinstance(st.value, ast.IfExp):
+            a, b = p.fork(), p.fork()
+            self._facts_from_test(st.value.test, a, True)
+            self._facts_from_test(st.value.test, b, False)
+            return self._stmt(ast.copy_location(ast.AugAssign(target=st.target, op=st.op, value=st.value.body), st), a) + \
+                self._stmt(ast.copy_location(ast.AugAssign(target=st.target, op=st.op, value=st.value.orelse), st), b)
         if isinstance(st, ast.AugAssign):
             t = st.target
             if isinstance(t, ast.Subscript) and isinstance(t.value, ast.Name):
@@ -472,7 +482,11 @@ def r_signalign(idx, rep, rule="R-SIGNALIGN"):
                 continue
             npaths += 1
             if isinstance(p.ret, ast.Name) and not (p.env.get(p.ret.id) and p.env[p.ret.id][0] == "vec"):
-                p.ret = resolved(f.node, p.ret)          # `tmp = transform_point(T, v); return tmp`
+                pe_ = p.env.get("__expr_" + p.ret.id)
+                if isinstance(pe_, ast.AST):
+                    p.ret = ast.copy_location(pe_, p.ret) if not hasattr(pe_, "lineno") else pe_          # the expression bound on this path
+                else:
+                    p.ret = resolved(f.node, p.ret)          # `tmp = transform_point(T, v); return tmp`
             local = _local_vertex(p.ret, p)
             where = "%s:%d" % (f.module.relpath, p.ret.lineno)
             pathtxt = ", ".join("d%d %s" % (k, "/".join(sorted(v))) for k, v in sorted(p.facts.items())) or "no tests"
